@@ -20,16 +20,16 @@ two filesystem operations of the resulting stream.
 namespace Rain.Props.Persist
 open Rain Rain.Lsm Rain.Durable Rain.Persist Rain.Persist.Lemmas Rain.Lsm.Lemmas
 
-/-- **one step: the operations are accepted by the monitor, the correspondence is kept** -/
-theorem C02_step_accepted (p p' : PState) (a : PAction) (h : Rel p) (hs : pstep p a = some p') :
-    runOk p.d (opsOf p a) = some p'.d ∧ Rel p' := by
+/-- one step, with everything the lemmas establish about it -/
+theorem step_ok (p p' : PState) (a : PAction) (h : Rel p) (hs : pstep p a = some p') :
+    StepOk p p' (opsOf p a) := by
   unfold pstep at hs
   cases a with
   | write ops =>
     simp only [lsmStep, PAction.toAction?, step, if_true, Option.some.injEq] at hs
     subst hs
     have := write_ok h ops
-    exact ⟨this.run, this.rel⟩
+    exact this
   | rotate w =>
     simp only [lsmStep, PAction.toAction?, step] at hs
     split at hs
@@ -45,7 +45,7 @@ theorem C02_step_accepted (p p' : PState) (a : PAction) (h : Rel p) (hs : pstep 
           have := List.all_eq_true.mp hx x hx'
           simpa using this
         have := rotate_ok h w hw s' hst
-        exact ⟨this.run, this.rel⟩
+        exact this
     · cases hs
   | flush num lvl =>
     simp only [lsmStep, PAction.toAction?, step, if_true] at hs
@@ -56,7 +56,7 @@ theorem C02_step_accepted (p p' : PState) (a : PAction) (h : Rel p) (hs : pstep 
       simp only [Option.some.injEq] at hs
       subst hs
       have := flush_ok h num lvl s' hst
-      exact ⟨this.run, this.rel⟩
+      exact this
   | compact c =>
     simp only [lsmStep, PAction.toAction?, step, if_true] at hs
     cases hst : stepCompact p.s c with
@@ -66,7 +66,7 @@ theorem C02_step_accepted (p p' : PState) (a : PAction) (h : Rel p) (hs : pstep 
       simp only [Option.some.injEq] at hs
       subst hs
       have := compact_ok h c s' hst
-      exact ⟨this.run, this.rel⟩
+      exact this
   | trivialMove num lvl =>
     simp only [lsmStep, PAction.toAction?, step, if_true] at hs
     cases hst : stepTrivialMove p.s num lvl with
@@ -76,7 +76,7 @@ theorem C02_step_accepted (p p' : PState) (a : PAction) (h : Rel p) (hs : pstep 
       simp only [Option.some.injEq] at hs
       subst hs
       have := move_ok h num lvl s' hst
-      exact ⟨this.run, this.rel⟩
+      exact this
   | switchManifest m' =>
     simp only [lsmStep, PAction.toAction?] at hs
     split at hs
@@ -88,7 +88,7 @@ theorem C02_step_accepted (p p' : PState) (a : PAction) (h : Rel p) (hs : pstep 
         have := List.all_eq_true.mp hx x hx'
         simpa using this
       have := switch_ok h m' hf
-      exact ⟨this.run, this.rel⟩
+      exact this
     · cases hs
   | reopen t1 t2 w' m' =>
     simp only [lsmStep] at hs
@@ -110,8 +110,39 @@ theorem C02_step_accepted (p p' : PState) (a : PAction) (h : Rel p) (hs : pstep 
           have := List.all_eq_true.mp hx.2 x hx'
           simpa using this
         have := reopen_ok h t1 t2 w' m' hw hm s3 hst
-        exact ⟨this.run, this.rel⟩
+        exact this
     · cases hs
+
+/-- **one step: the operations are accepted by the monitor, the correspondence is kept** -/
+theorem C02_step_accepted (p p' : PState) (a : PAction) (h : Rel p) (hs : pstep p a = some p') :
+    runOk p.d (opsOf p a) = some p'.d ∧ Rel p' :=
+  ⟨(step_ok p p' a h hs).run, (step_ok p p' a h hs).rel⟩
+
+/-- **C08 / C02 at every point INSIDE a step**: after the first `i` filesystem operations of any
+action — i.e. when the `i+1`-th call fails, or the process dies there — the operations so far were
+accepted by the monitor and the image corresponds to the instance state BEFORE the step or to the
+state AFTER it (the switch is the manifest append, for a reopen the switch of CURRENT).  Whatever
+the instance does with the failure, its memory and the disk describe the same database. -/
+theorem C08_every_point_of_a_step_is_consistent (p p' : PState) (a : PAction) (h : Rel p)
+    (hs : pstep p a = some p') (i : Nat) (hi : i ≤ (opsOf p a).length) :
+    runOk p.d ((opsOf p a).take i) = some (((opsOf p a).take i).foldl apply p.d) ∧
+    (Rel { s := p.s, d := ((opsOf p a).take i).foldl apply p.d, c := p.c } ∨
+     Rel { s := p'.s, d := ((opsOf p a).take i).foldl apply p.d, c := p'.c }) := by
+  have := (step_ok p p' a h hs).chain.prefix i hi
+  exact ⟨this.2, this.1⟩
+
+/-- … hence the image at that point recovers to what the instance reads before the step or to what
+it reads after it -/
+theorem C08_image_inside_a_step_is_what_is_read (p p' : PState) (a : PAction) (h : Rel p)
+    (hs : pstep p a = some p') (i : Nat) (hi : i ≤ (opsOf p a).length) :
+    ∃ r, recover (((opsOf p a).take i).foldl apply p.d) = some r ∧
+      ((∀ k, latest r.entries k = dbGet p.s k p.s.lastSeq) ∨
+       (∀ k, latest r.entries k = dbGet p'.s k p'.s.lastSeq)) := by
+  rcases (C08_every_point_of_a_step_is_consistent p p' a h hs i hi).2 with hr | hr
+  · obtain ⟨r, h1, h2⟩ := rel_reads hr
+    exact ⟨r, h1, Or.inl h2⟩
+  · obtain ⟨r, h1, h2⟩ := rel_reads hr
+    exact ⟨r, h1, Or.inr h2⟩
 
 /-- **every run: the whole operation stream is accepted by the monitor** -/
 theorem C02_run_accepted (as : List PAction) (p p' : PState) (h : Rel p) (hr : prun p as = some p') :
@@ -216,6 +247,34 @@ theorem prun_run (as : List PAction) (p p' : PState) (hr : prun p as = some p') 
       simp only [lsmTrace, hst]
       rw [run_append (lsmStep_run (pstep_step hst))]
       exact ih p1 hr
+
+/-- **a step that is not a write changes nothing that is read**: flushes, compactions, moves,
+manifest switches and reopens leave every key's value as it was (C07 on the composed model; with
+the two theorems above: a failure anywhere inside background work loses nothing acknowledged) -/
+theorem C08_background_step_reads_unchanged (p p' : PState) (a : PAction) (h : Rel p)
+    (hs : pstep p a = some p') (hbg : ∀ ops, a ≠ .write ops) (k : Bytes) :
+    dbGet p'.s k p'.s.lastSeq = dbGet p.s k p.s.lastSeq := by
+  have hl := pstep_step hs
+  cases a with
+  | write ops => exact absurd rfl (hbg ops)
+  | rotate w =>
+    simp only [lsmStep, PAction.toAction?] at hl
+    exact step_get h.inv hl rfl k
+  | flush n l =>
+    simp only [lsmStep, PAction.toAction?] at hl
+    exact step_get h.inv hl rfl k
+  | compact c =>
+    simp only [lsmStep, PAction.toAction?] at hl
+    exact step_get h.inv hl rfl k
+  | trivialMove n l =>
+    simp only [lsmStep, PAction.toAction?] at hl
+    exact step_get h.inv hl rfl k
+  | switchManifest m =>
+    simp only [lsmStep, PAction.toAction?, Option.some.injEq] at hl
+    rw [← hl]
+  | reopen t1 t2 w m =>
+    simp only [lsmStep] at hl
+    exact (reopen_lsm h.inv hl).get k
 
 /-- a freshly created database is in correspondence with the empty LSM state -/
 theorem fresh_rel (m w : Nat) : Rel (pinit m w) := by
